@@ -637,12 +637,16 @@ mod fuse {
         /// Returns the maximum log₂ of segment size for fuse graphs that makes the
         /// graphs solvable with high probability.
         ///
-        /// This function should not be called for graphs larger than 2 *
-        /// [`Self::HALF_MAX_LIN_SHARD_SIZE`].
+        /// Sharding keeps the *average* shard below 2 *
+        /// [`Self::HALF_MAX_LIN_SHARD_SIZE`], but this function is called
+        /// with the size of the largest shard, which can be larger (it is
+        /// compared with the average only after the graphs have been set up);
+        /// it should not be called for graphs larger than
+        /// [`Self::MAX_LIN_SIZE`].
         fn lin_log2_seg_size(arity: usize, n: usize) -> u32 {
             match arity {
                 3 => {
-                    debug_assert!(n <= 2 * Self::HALF_MAX_LIN_SHARD_SIZE);
+                    debug_assert!(n <= Self::MAX_LIN_SIZE);
                     (0.85 * (n.max(1) as f64).ln()).floor().max(1.) as u32
                 }
                 _ => unimplemented!(),
